@@ -1075,7 +1075,6 @@ def path_to_tree_path(
     if isinstance(path, bytes):
         path = os.fsdecode(path)
     path = Path(path)
-    resolved_path = path.resolve()
 
     # Resolve and abspath seems to behave differently regarding symlinks,
     # as we are doing abspath on the file path, we need to do the same on
@@ -1088,16 +1087,18 @@ def path_to_tree_path(
         repopath = os.fsdecode(repopath)
     repopath = Path(repopath).resolve()
 
+    # A path names an entry of the work tree, not what the entry points to: a
+    # symlink is tracked as a link, and "d/f" stays "d/f" even if "d" has been
+    # replaced by a symlink.  So normalise lexically first ...
     try:
-        relpath = resolved_path.relative_to(repopath)
+        relpath = Path(os.path.abspath(path)).relative_to(repopath)
     except ValueError:
-        # If path is a symlink that points to a file outside the repo, we
-        # want the relpath for the link itself, not the resolved target
-        if path.is_symlink():
-            parent = path.parent.resolve()
-            relpath = (parent / path.name).relative_to(repopath)
+        # ... and only when the work tree itself was reached through a symlink
+        # resolve the directory part (never the last component).
+        if path.name in ("", ".", ".."):
+            relpath = path.resolve().relative_to(repopath)
         else:
-            raise
+            relpath = (path.parent.resolve() / path.name).relative_to(repopath)
     if sys.platform == "win32":
         return str(relpath).replace(os.path.sep, "/").encode(tree_encoding)
     else:
@@ -2048,6 +2049,10 @@ def add(
 
             # Handle directories by scanning their contents
             if resolved_path.is_dir():
+                if resolved_path.is_symlink():
+                    # a link to a directory is scanned through the link, but
+                    # only if it stays inside the work tree (ValueError if not)
+                    resolved_path.resolve().relative_to(repo_path)
                 # Check if the directory itself is ignored
                 dir_relpath = posixpath.join(relpath, "") if relpath != "." else ""
                 if dir_relpath and ignore_manager.is_ignored(dir_relpath):
